@@ -3,7 +3,7 @@
 Exit codes of every check: 0 = property held on everything explored (known findings are
 printed as KNOWN-FINDING lines), 1 = at least one VIOLATION not listed in known_findings.json,
 2 = machinery failure (TLC crash, trace not consumed, vacuity guard) -- never a verdict."""
-import hashlib, json, os, sys, time, traceback
+import hashlib, json, os, re, sys, time, traceback
 
 VERIF = os.path.dirname(os.path.dirname(os.path.abspath(__file__)))
 REPO = os.environ.get("VERIF_REPO", "/repo")
@@ -83,7 +83,7 @@ class Check:
     # ---- verdicts -------------------------------------------------------------
     def match_known(self, key):
         for k in self.known:
-            if k.get("status") == "known" and key.startswith(k["key"]):
+            if k.get("status") == "known" and re.fullmatch(k["key"], key):
                 return k
         return None
 
